@@ -107,11 +107,32 @@ HASH_EQUAL = [
 ]
 
 
+# a shorter rule whose path is ABSENT next to a longer rule that exists and fails, the two paths differing only in the TYPE of a key
+# that prints alike (1 / "1"): whether a rule is tested depends on its own path only
+TYPED_PREFIX = [
+    ({1: {"x": 5}}, [("1",), (1, "x")]),
+    ({"1": {"x": 5}}, [(1,), ("1", "x")]),
+    ({1.5: {"x": 5}, "k": 0}, [("1.5",), (1.5, "x"), ("k",)]),
+    ({"a": {0: [7]}}, [("a", "0"), ("a", 0, 0)]),
+    ({True: {"x": 5}}, [("True",), (True, "x")]),
+    ({None: {"x": 5}, "None": 3}, [("none",), (None, "x"), ("None", "x")]),
+]
+
+
 def run(tier, seed, model_ok, spec_ok, replay=None):
     g = Gen(seed)
     rg = RuleGen(CondGen(g))
     n = 120 if tier == "quick" else 3000
     cases, direct, nperm = [], [], 0
+    for doc, paths in TYPED_PREFIX:
+        rts = [RuleT(PathT([Prim(x) for x in p]), Leaf("Value", "is_instance", [str]), []) for p in paths]
+        perms = list(itertools.permutations(range(len(rts))))
+        for perm in perms:
+            c = sc.make_case([rts[i] for i in perm], copy_value(doc))
+            if c:
+                cases.append(c)
+        direct.extend(direct_checks(rts, perms, doc))
+        nperm += len(perms)
     # rules whose concrete paths are equal as tuples / hash-equal but of different types must not share anything
     for doc, paths in HASH_EQUAL:
         rts = [RuleT(PathT([Prim(x) for x in p]), Leaf("Value", "is_instance", [int]), []) for p in paths]
